@@ -541,6 +541,37 @@ func runWide(c *core.Ctx, pool *core.Pool, matrix Matrix_) error {
 		jobs = append(jobs, core.Job{Kind: "elk", Payload: elkrun.Job{Src: src, RunMs: 4000}, TimeoutMs: 20000})
 	}
 	results := pool.Map(jobs, nil)
+	// a time-out is only a "hang" if a second, dedicated run with a long deadline does not answer either
+	// (the first deadline is short so that a real hang is cheap; on a loaded machine it can be missed)
+	var again []int
+	for i, jr := range results {
+		if jr.Timeout {
+			again = append(again, i)
+			continue
+		}
+		if i >= len(vecs) && !jr.Crashed && jr.Panic == "" && jr.Err == "" {
+			var r elkrun.Result
+			if jr.Decode(&r) == nil && r.Hung {
+				again = append(again, i)
+			}
+		}
+	}
+	if len(again) > 0 {
+		var rejobs []core.Job
+		for _, i := range again {
+			j := jobs[i]
+			j.TimeoutMs = 75000
+			if p, ok := j.Payload.(elkrun.Job); ok {
+				p.RunMs = 45000
+				j.Payload = p
+			}
+			rejobs = append(rejobs, j)
+		}
+		for k, jr := range pool.Map(rejobs, nil) {
+			results[again[k]] = jr
+		}
+		c.Logf("wide types: %d evaluations exceeded the short deadline and were repeated with a 45-75 s deadline", len(again))
+	}
 	type obs struct {
 		v    Vec
 		path string
@@ -613,8 +644,12 @@ func runWide(c *core.Ctx, pool *core.Pool, matrix Matrix_) error {
 	mod := apa.Module{SpecDir: specDir, Header: "EXTENDS FixedInt\n"}
 	par := max(1, c.Workers/2)
 	t1 := time.Now()
-	res, err := apa.Check(mod, c.Scratch, texts, 300, par, 12*time.Minute)
+	res, err := apa.Check(mod, c.Scratch, texts, 200, par, 25*time.Minute)
 	if err != nil {
+		if c.Violations() > 0 {
+			c.Note(fmt.Sprintf("Apalache stage not completed (%v); verdict rests on the violations found before it", err))
+			return nil
+		}
 		return core.Inconclusivef("Apalache: %v", err)
 	}
 	// explanations
@@ -635,7 +670,7 @@ func runWide(c *core.Ctx, pool *core.Pool, matrix Matrix_) error {
 	}
 	expl := map[string]string{}
 	if len(etexts) > 0 {
-		eres, err := apa.Check(mod, c.Scratch, etexts, 300, par, 12*time.Minute)
+		eres, err := apa.Check(mod, c.Scratch, etexts, 200, par, 25*time.Minute)
 		if err != nil {
 			return core.Inconclusivef("Apalache (explanation run): %v", err)
 		}
